@@ -511,7 +511,7 @@ def run(ctx):
     rng = ctx.rng
     n = 0
     # every cut offset x segmentation
-    nseq = 14 if ctx.tier == 'quick' else 120
+    nseq = 14 if ctx.tier == 'quick' else 1600
     for j in range(nseq):
         msgs = rand_msgs(rng, rng.randrange(1, 6 if ctx.tier == 'quick' else 9))
         stream, ends = stream_of(msgs)
@@ -531,20 +531,20 @@ def run(ctx):
     for how in ('plain', 'after-traffic', 'with'):
         peer_sees_close(ctx, how)
         n += 1
-    for j in range(3 if ctx.tier == 'quick' else 60):
+    for j in range(3 if ctx.tier == 'quick' else 300):
         thread_peer_case(ctx, f'{ctx.seed}:{ctx.shard}:t{j}')
         ctx.nontrivial(('thread', ctx.seed, ctx.shard, j))
         n += 1
-    for j in range(2 if ctx.tier == 'quick' else 30):
+    for j in range(2 if ctx.tier == 'quick' else 150):
         killed_peer_case(ctx, f'{ctx.seed}:{ctx.shard}:k{j}')
         ctx.nontrivial(('killed', ctx.seed, ctx.shard, j))
         n += 1
     modes = ('poll', 'iter_pending', 'receive')
-    for j in range(3 if ctx.tier == 'quick' else 30):
+    for j in range(3 if ctx.tier == 'quick' else 150):
         server_case(ctx, f'{ctx.seed}:{ctx.shard}:s{j}', 1 + (j + ctx.shard) % 3, modes[(j + ctx.shard) % 3])
         ctx.nontrivial(('server', ctx.seed, ctx.shard, j))
         n += 1
-    for j in range(2 if ctx.tier == 'quick' else 25):
+    for j in range(2 if ctx.tier == 'quick' else 100):
         reply_to_departed_peer_case(ctx, f'{ctx.seed}:{ctx.shard}:d{j}')
         ctx.nontrivial(('departed', ctx.seed, ctx.shard, j))
         n += 1
